@@ -1,9 +1,138 @@
-//! C07 - see l1.rs (pair level scenarios)
+//! C07 - pair level scenarios in l1.rs; node level (a second handshake replaces the connection) here
 use super::{
     chooser::Chooser,
     l1,
-    runner::{RunCtx, RunOut, Scenario, Tier},
+    mesh::{self, finish, panic_violation},
+    runner::{RunCtx, RunOut, Scenario, Tier, Violation},
+    world::{Step, World},
 };
+use crate::verif::Event;
+
+struct Ns {
+    /// when each node last added the other as a peer (ms)
+    added: [Option<u64>; 2],
+    key_changes: u64,
+}
+
+fn after(w: &mut World, s: &mut Ns, st: &Step) -> Result<(), Violation> {
+    if let Some(v) = panic_violation(w, st, "C07") {
+        return Err(v);
+    }
+    if let Some(i) = st.node {
+        for e in &st.probes {
+            match e {
+                Event::PeerAdded { .. } if i < 2 => s.added[i] = Some(w.now_ms),
+                Event::KeyRotated { use_for_sending: true, .. } => s.key_changes += 1,
+                _ => {}
+            }
+        }
+    }
+    Ok(())
+}
+
+fn drive(w: &mut World, s: &mut Ns, until: u64) -> Result<(), Violation> {
+    while let Some(st) = w.step(until) {
+        after(w, s, &st)?;
+    }
+    Ok(())
+}
+
+/// Node level: the connection of two real nodes is replaced by a second handshake (the dialling end crashes and comes
+/// back on the same address while the other end still holds the old connection); after that handshake, too, each end
+/// seals with keys the other holds: every probe crosses, in both directions, over several rotation intervals.
+fn node_scenario(w: &mut World, _ctx: &RunCtx, states: &mut Vec<u64>) -> Result<(), Violation> {
+    let k = w.add_key(None);
+    let fam = w.ch.choose("addr_family", 2) as u8;
+    let cipher = w.ch.pick("cipher", &["aes128", "aes256", "chacha20"]).to_string();
+    for i in 0..2 {
+        let mut c = mesh::tun_node(i);
+        c.key = k;
+        c.algorithms = vec![cipher.clone()];
+        c.tick_phase_ms = w.ch.choose("tick_phase", 1000) as u64;
+        if i == 1 {
+            c.peers.push(mesh::node_text(0, fam));
+        }
+        w.add_node(c, fam);
+    }
+    let mut s = Ns { added: [None, None], key_changes: 0 };
+    for i in 0..2 {
+        let st = w.start_node(i);
+        after(w, &mut s, &st)?;
+    }
+    let mut err = None;
+    let ok = mesh::run_until_connected(w, &[(0, 1), (1, 0)], 8_000, |w, st| after(w, &mut s, st)).unwrap_or_else(|e| {
+        err = Some(e);
+        false
+    });
+    if let Some(e) = err {
+        return Err(e);
+    }
+    if !ok {
+        return Ok(());
+    }
+    // past the time the first handshake lingers at its initiator, with some rotations behind
+    let until = w.now_ms + 130_000 + w.ch.choose("first_life_ms", 600_000) as u64;
+    drive(w, &mut s, until)?;
+    w.crash_node(1);
+    let pause = w.ch.choose("down_ms", 3_000) as u64;
+    let until = w.now_ms + pause;
+    drive(w, &mut s, until)?;
+    let restarted_at = w.now_ms;
+    s.added = [None, None];
+    let st = w.start_node(1);
+    after(w, &mut s, &st)?;
+    let deadline = w.now_ms + 10_000;
+    let mut err = None;
+    let ok = mesh::run_until_connected(w, &[(0, 1), (1, 0)], deadline, |w, st| after(w, &mut s, st)).unwrap_or_else(|e| {
+        err = Some(e);
+        false
+    });
+    if let Some(e) = err {
+        return Err(e);
+    }
+    if !ok || s.added[0].is_none() || s.added[1].is_none() {
+        w.count("c07_node_level_not_reconnected");
+        return Ok(());
+    }
+    let until = w.now_ms + 2_000;
+    drive(w, &mut s, until)?;
+    states.push(mesh::abstract_state(w));
+    w.count("c07_node_level_second_handshakes");
+    let span_ms = 20_000 + w.ch.choose("probe_span_ms", 700_000) as u64;
+    let end = w.now_ms + span_ms;
+    let mut counter = 0u32;
+    while w.now_ms < end {
+        for (a, b) in [(0usize, 1usize), (1, 0)] {
+            if !(w.is_connected(a, b) && w.is_connected(b, a)) {
+                return Ok(());
+            }
+            counter += 1;
+            let m = mesh::marker(w, counter);
+            let f = mesh::ipv4_packet(mesh::tun_ip(a), mesh::tun_ip(b), &m);
+            let first = w.dev_writes.len();
+            let at = w.now_ms + 1;
+            w.schedule_frame(at, a, f.clone());
+            drive(w, &mut s, at + 200)?;
+            w.count("c07_node_level_probes_checked");
+            if !w.dev_writes[first..].iter().any(|d| d.node == b && d.data == f) {
+                return Err(Violation::new("probe", "fresh-payload-not-decryptable", format!("after the second handshake (n1 came back at t={:.1}s; both ends added each other again) a probe from n{} to n{} sent at t={:.1}s on a loss-free network was not delivered: the ends do not seal with keys the other holds", restarted_at as f64 / 1000.0, a, b, at as f64 / 1000.0)));
+            }
+        }
+        let gap = 1_000 + w.ch.choose("probe_gap_ms", 9_000) as u64;
+        let until = w.now_ms + gap;
+        drive(w, &mut s, until)?;
+    }
+    states.push(mesh::abstract_state(w));
+    Ok(())
+}
+
+fn node_level(seed: u64, ch: Chooser, ctx: &RunCtx) -> RunOut {
+    let mut w = mesh::new_world(seed, ch, ctx);
+    let mut states = vec![];
+    let res = node_scenario(&mut w, ctx, &mut states);
+    let nontrivial = w.counters.get("c07_node_level_probes_checked").copied().unwrap_or(0) > 0;
+    finish(w, res, nontrivial, states)
+}
 
 pub struct C07;
 
@@ -13,6 +142,10 @@ impl Scenario for C07 {
     }
 
     fn run(&self, seed: u64, ch: Chooser, ctx: &RunCtx) -> RunOut {
+        // after the sweep every fiftieth run is a node-level run
+        if ctx.index >= l1::c07_sweep_size(ctx.tier) && ctx.index % 50 == 7 {
+            return node_level(seed, ch, ctx);
+        }
         l1::c07(seed, ch, ctx)
     }
 
@@ -24,7 +157,7 @@ impl Scenario for C07 {
     }
 
     fn rule(&self) -> &'static str {
-        "the first 6^6 runs (thorough: 6^8) are a seed-indexed sweep over all schedules of that length over {rotation cycle (120 ticks) at A, cycle at B, deliver the oldest / newest in-flight rotation message, deliver a duplicate of the oldest, drop the oldest} with a probe in both directions after every operation; the remaining runs: an established real PeerCrypto pair (real rotation state and key slots); 300-1500 ticks per end (thorough: up to 4000; rotation interval 120 ticks) at independent rates (drift, swapped order), rotation messages lost (10-60 %), duplicated, reordered and delayed by up to 600 ticks during a fault phase covering 0-75 % of the run; after every step each end seals a probe and the other must open it to the same bytes; in the fault-free suffix (after a recovery allowance of 4 intervals) the sealing key of each direction must change at least once in every window of 2 intervals + 1 tick. Non-trivial: probes were checked. Distinct = distinct schedule hashes."
+        "the first 6^6 runs (thorough: 6^8) are a seed-indexed sweep over all schedules of that length over {rotation cycle (120 ticks) at A, cycle at B, deliver the oldest / newest in-flight rotation message, deliver a duplicate of the oldest, drop the oldest} with a probe in both directions after every operation; the remaining runs: an established real PeerCrypto pair (real rotation state and key slots); 300-1500 ticks per end (thorough: up to 4000; rotation interval 120 ticks) at independent rates (drift, swapped order), rotation messages lost (10-60 %), duplicated, reordered and delayed by up to 600 ticks during a fault phase covering 0-75 % of the run; after every step each end seals a probe and the other must open it to the same bytes; in the fault-free suffix (after a recovery allowance of 4 intervals) the sealing key of each direction must change at least once in every window of 2 intervals + 1 tick. After the sweep every fiftieth run is a node-level run: the connection of two real nodes is replaced by a second handshake (the dialling end crashes and comes back on the same address 130-730 s after the first handshake, while the other end still holds the old connection); once both ends have added each other again, probes in both directions every 1-10 s for up to 12 minutes must all be delivered. Non-trivial: probes were checked. Distinct = distinct schedule hashes."
     }
 
     fn expected_probes(&self) -> Vec<&'static str> {
